@@ -20,6 +20,7 @@
 #define NREC 6
 static struct S_struct_2eVSessB the_sess; static struct S_class_2eFIX8_3a_3aConnection the_conn; static struct S_struct_2eVPers the_pers;
 static struct S_struct_2eVMsg the_msg[NMSG]; static struct S_class_2eFIX8_3a_3aMessageBase the_hdr[NMSG];
+static struct S_struct_2eVBatch the_vec; static struct S_class_2eFIX8_3a_3aMessage *the_arr[NMSG];   /* batch argument */
 static uint64_t sock_raw[4], ctx_raw[64];          /* opaque handles: socket, F8MetaCntx (never read on these paths) */
 #define SESS ((struct S_class_2eFIX8_3a_3aSession*)&the_sess)
 #define MSGP(i) ((struct S_class_2eFIX8_3a_3aMessage*)&the_msg[i])
